@@ -1109,9 +1109,12 @@ func (e *Engine) overlay(r io.Reader, basePath string, asNew bool) error {
 		defer e.mu.Unlock()
 
 		var newFiles []string
+		// When files are imported under new names, a data file and its tombstone file must get
+		// the same new name: renamed maps the archived base name to the one chosen here.
+		renamed := make(map[string]string)
 		tr := tar.NewReader(r)
 		for {
-			if fileName, err := e.readFileFromBackup(tr, basePath, asNew); err == io.EOF {
+			if fileName, err := e.readFileFromBackup(tr, basePath, asNew, renamed); err == io.EOF {
 				break
 			} else if err != nil {
 				return nil, err
@@ -1205,14 +1208,17 @@ func (e *Engine) overlay(r io.Reader, basePath string, asNew bool) error {
 // The file is skipped if it does not have a matching shardRelativePath prefix.
 // If asNew is true, each file will be installed as a new TSM file even if an
 // existing file with the same name in the backup exists.
-func (e *Engine) readFileFromBackup(tr *tar.Reader, shardRelativePath string, asNew bool) (string, error) {
+func (e *Engine) readFileFromBackup(tr *tar.Reader, shardRelativePath string, asNew bool, renamed map[string]string) (string, error) {
 	// Read next archive file.
 	hdr, err := tr.Next()
 	if err != nil {
 		return "", err
 	}
 
-	if !strings.HasSuffix(hdr.Name, TSMFileExtension) {
+	// A tombstone file holds the deletes that have not been compacted into its data file yet.
+	// It is restored next to that file; dropping it would bring the deleted points back.
+	isTombstone := strings.HasSuffix(hdr.Name, "."+TombstoneFileExtension)
+	if !strings.HasSuffix(hdr.Name, TSMFileExtension) && !isTombstone {
 		// This isn't a .tsm file.
 		return "", nil
 	}
@@ -1236,12 +1242,26 @@ func (e *Engine) readFileFromBackup(tr *tar.Reader, shardRelativePath string, as
 	}
 
 	if asNew {
-		filename = e.formatFileName(e.FileStore.NextGeneration(), 1) + "." + TSMFileExtension
+		ext := filepath.Ext(filename)
+		base := strings.TrimSuffix(filename, ext)
+		newBase, ok := renamed[base]
+		if !ok {
+			newBase = e.formatFileName(e.FileStore.NextGeneration(), 1)
+			renamed[base] = newBase
+		}
+		filename = newBase + ext
 	}
 
 	tmp := fmt.Sprintf("%s.%s", filepath.Join(e.path, filename), TmpTSMFileExtension)
+	flags := os.O_CREATE | os.O_RDWR
+	if isTombstone {
+		// Written under its final name: the data file it belongs to is renamed into place next
+		// to it and picks it up when it is opened.
+		tmp = filepath.Join(e.path, filename)
+		flags |= os.O_TRUNC
+	}
 	// Create new file on disk.
-	f, err := os.OpenFile(tmp, os.O_CREATE|os.O_RDWR, 0666)
+	f, err := os.OpenFile(tmp, flags, 0666)
 	if err != nil {
 		return "", err
 	}
@@ -1257,6 +1277,9 @@ func (e *Engine) readFileFromBackup(tr *tar.Reader, shardRelativePath string, as
 		return "", err
 	}
 
+	if isTombstone {
+		return "", nil
+	}
 	return tmp, nil
 }
 
